@@ -185,6 +185,14 @@ def generate(rng, tier):
     if tier == 'quick':
         ex = small_exhaustive()
         cases += rng.sample(ex, 160)
+        # sequences beyond a thousand items (code paths that differ above a size cutoff), one per aggregate
+        longs = []
+        for agg in AGGS:
+            n = rng.choice([1001, 1100, 1500])
+            modes = ('reduce',) if agg in ('fvar', 'fstd') else ('stream', 'reduce')
+            longs.append(mk_case(rng, agg, rng.choice(['normal', 'offset', 'ints']), n, modes=modes, mode=rng.choice(['plain', 'mux'])))
+        for k, lc in enumerate(longs):
+            cases.insert(min(len(cases), k * SHARD + SHARD // 2), lc)
     else:
         cases += small_exhaustive()
         # a few long sequences; placed SHARD apart so that a generated Coq file holds at most one of them
